@@ -362,6 +362,13 @@ func genTailRec(r *common.Rand, mutate bool) (string, map[string]bool) {
 	// backtrack point pending below the loop's frame (array collection, comma, reduce source,
 	// try, alternative, iteration with elements left, label, object value, binding)
 	call := "0 | f"
+	if r.Chance(1, 3) {
+		// the loop is fed by a generator that is still alive (a native iterator, a generator
+		// defined as a function, limit/first/recurse): its fork lies below the loop's frame
+		feed := common.Pick(r, []string{"range(2)", "range(0; 2)", "limit(2; 0, 0)", "first(0, 1)", "def h: 0, 0; h", "(0 | recurse(if . < 1 then . + 1 else empty end))", "[0, 0][]", "(0, 0)", "limit(1; repeat(0))", "{a: 0, b: 0}[]", "(0 | ., .)"})
+		g.feats["feed:"+feed] = true
+		call = feed + " | f"
+	}
 	if r.Chance(2, 3) {
 		cx := common.Pick(r, []string{"[%s]", "(%s), 1", "reduce (%s) as $v (0; $v)", "try (%s) catch .", "(%s) // 1", "[1, 2][] | %s", "label $l | %s", "{a: (%s)}", "5 as $z | %s", "[(%s), 2]", "foreach (%s) as $v (0; $v)", "(%s)?", "[[1][] | %s]", "1 | (%s, 2)"})
 		g.feats["context:"+cx] = true
